@@ -2,6 +2,7 @@ package sim
 
 import (
 	"fmt"
+	"os"
 	"runtime"
 	"strings"
 )
@@ -77,6 +78,9 @@ func Guard(f func()) (pi *PanicInfo) {
 		// strip closure suffixes so the site is stable: (*Segment).visitDocument.func1 -> (*Segment).visitDocument
 		if i := strings.Index(site, ".func"); i > 0 {
 			site = site[:i]
+		}
+		if os.Getenv("ICESIM_DEBUG") != "" {
+			fmt.Fprintf(os.Stderr, "panic: %v\n%s\n", r, sb.String())
 		}
 		pi = &PanicInfo{Msg: fmt.Sprint(r), Site: site, InIce: true}
 	}()
